@@ -11,10 +11,10 @@ P = {
  'C03': ('fault_enumeration', 'every prefix of the backend mutation log of real snapshot/delete/clean executions (all completion orders the run produced, plus scripted ones) is rebuilt as a crash state and given to the real follow-up commands; histories validated by RepoTrace.tla; local backend syscall traces validated by LocalFS.tla at every syscall prefix; single permanent failures injected at every backend call', TB + 'crash = loss of the process (no power-loss reordering); strace for the local backend', '6 C03', 'crash-point enumeration checked by TLC trace validation (RepoTrace, LocalFS) on top of Repo.tla with Crash/Fail'),
  'C04': ('fault_enumeration', 'Tamper.tla shows which check stops which tamper kind; every tamper family (bit flips, truncation, extension, swaps, replays, deletion) applied to the objects of real repositories, the real restore outcome validated by TamperTrace clauses (error or original bytes)', TB + 'AEAD and hash strength', '6 C04', 'TLC model + enumerated tampering of real objects validated by TLC'),
  'C05': ('other', 'AtRest.tla: symbolic term model of everything written, observer knowledge closure; every object name and byte written by real commands is decoded to a term by the independent codec and validated by AtRestTrace.tla, plus a canary scan of raw bytes', TB + 'AEAD hides its payload', '6 C05', 'symbolic TLA+ model checked by TLC + TLC validation of term traces decoded from real bytes'),
- 'C06': ('model_checking', 'Repo.tla Confined / refusal properties per key graph with spec mutants; TLC behaviours incl. refused deletes replayed; histories in which every user lists, restores, deletes foreign snapshots and cleans, plus the unlock matrix, validated by RepoTrace.tla', TB + 'key relations as decoded by the independent codec', '6 C06', 'TLC model checking + behaviour replay + TLC trace validation'),
+ 'C06': ('model_checking', 'Repo.tla Confined / refusal properties per key graph with spec mutants; TLC behaviours incl. refused deletes replayed; histories in which every user lists, restores, deletes foreign snapshots and cleans, plus the unlock matrix (with impostor passwords) and a flow in which keys and snapshots are made through the command line, validated by RepoTrace.tla', TB + 'key relations as decoded by the independent codec', '6 C06', 'TLC model checking + behaviour replay + TLC trace validation'),
  'C07': ('model_checking', 'Repo.tla DedupExact / RepeatNoUpload; crash-free histories and repeat-snapshot scenarios (same, shared, independent users, concurrency 1..8, fresh process per command, content-defined chunking) validated by RepoTrace.tla (UploadOnlyIfAbsent, DedupExact, NoAlias)', TB, '6 C07', 'TLC model checking + TLC trace validation'),
  'C08': ('model_checking', 'Repo.tla CleanExact / DeleteComplete / Confined as action properties over histories with Crash/Fail; replay with exact chunk-set comparison; histories with interrupted commands and foreign objects validated by RepoTrace.tla', TB + 'chunk and snapshot areas contain only replicat objects', '6 C08', 'TLC model checking + behaviour replay + TLC trace validation'),
- 'C09': ('model_checking', 'SnapshotPipe.tla / RestorePipe.tla explore every interleaving in small scope (safety, slot bound, termination under fairness, spec mutants); schedules replayed on the real pipelines through sync hooks and a controlled backend; free-running perturbed runs validated by the pipeline trace specs', 'trusted: hook placement, schedule controller; schedules controlled at hook/backend-call granularity', '6 C09', 'TLC model checking of thread interleavings + schedule replay + TLC trace validation'),
+ 'C09': ('model_checking', 'SnapshotPipe.tla / RestorePipe.tla / FileLocks.tla explore every interleaving in small scope (safety, slot bound, termination under fairness, spec mutants); schedules replayed on the real pipelines through sync hooks and a controlled backend; free-running runs under seeded perturbation, line-level fuzzing and delay injection at call sites validated by the pipeline trace specs', 'trusted: hook placement, schedule controller; schedules controlled at hook/backend-call granularity', '6 C09', 'TLC model checking of thread interleavings + schedule replay + TLC trace validation'),
  'C10': ('model_checking', 'Chunker.tla: wrapper state machine around an abstract cut function, all streams/segmentations/parameters in small scope; real chunker (python adapter, shipped extension, library rebuilt from src/adapters.cpp) traces validated by ChunkerTrace.tla incl. functional-consistency memo across environments', 'trusted: TLC, ctypes shim; CLMUL arithmetic outside the spec', '6 C10', 'TLC model checking + TLC trace validation of real chunker runs'),
  'C11': ('exploration', 'deterministic locality proved on Chunker.tla and enforced on traces by the suffix memo; re-synchronisation distance and key separation measured on the real chunker against a bound with failure probability < 1e-15', 'statistical clause is measured, not proved', '6 C11', 'TLC (locality) + measured statistical bound on real traces'),
  'C12': ('fault_enumeration', 'Transfer.tla behaviours are fault scripts (position x kind x count) executed against the real local/S3/B2 adapters with faulty streams and mock transports; outcomes validated by TransferTrace clauses (exact bytes, bounded attempts)', 'trusted: fake S3/B2 services, virtual clock', '6 C12', 'TLC-generated fault scripts + TLC validation of outcomes'),
